@@ -29,6 +29,10 @@ def render(kinds, rng, style=0, final_nl=True, lang="C"):
             t = "   s%d = \"%s\"  ;  " % (i, ONM)
         elif k == "off":
             t = ["/* %s */", "// %s", "    /* %s */", "/* note %s here */"][(i + style) % 4] % OFFM
+        elif k == "offtail":
+            # the marker comment behind code, region text behind it on the same line
+            code = ("new   g%d=%d;" % (i, i)) if lang == "PAWN" else ("int   g%d=%d ;" % (i, i))
+            t = code + " /* %s */" % OFFM + ["   first   line %d", "\tnot   code $$ at all %d\t", "  x  (  %d"][(i + style) % 3] % i
         elif k == "on":
             t = ["/* %s */", "// %s", "  /* %s */", "/* back %s */"][(i + style) % 4] % ONM
         elif k == "offon":
@@ -73,7 +77,8 @@ def machine(lines):
         s = " ".join(logical.replace("\t", " ").split())
         if s.startswith("# "):
             s = "#" + s[2:]
-        sw_off = (not off) and ((OFFM in s and s.startswith(("/*", "//")) and not (ONM in s and s.find(ONM) > s.find(OFFM)))
+        midline = OFFM in s and not s.startswith(("/*", "//", "#")) and "/*" in s and s.find("/*") < s.find(OFFM) and ONM not in s
+        sw_off = (not off) and (midline or (OFFM in s and s.startswith(("/*", "//")) and not (ONM in s and s.find(ONM) > s.find(OFFM)))
                                 or s.replace("# ", "#") == "#pragma asm" or s.replace("# ", "#") == "#asm")
         sw_on = off and ((s.startswith(("/*", "//")) and ONM in s) or (s.startswith("#pragma") and s.split()[1:2] == ["endasm"]) or s.startswith("#endasm"))
         inreg = off and not sw_on
@@ -92,11 +97,18 @@ def regions(lines):
     regs = []
     cur = None
     prev_off = False
+    prev_line = ""
     for l, (off, inreg) in zip(lines, machine(lines)):
         if off and not prev_off:
             cur = []
             regs.append(cur)
+            # region text behind a marker comment that stands behind code on the previous line
+            if OFFM in prev_line and not prev_line.lstrip(" \t").startswith(("/*", "//", "#")) and "*/" in prev_line[prev_line.find(OFFM):]:
+                tail = prev_line[prev_line.find("*/", prev_line.find(OFFM)) + 2:]
+                if tail.strip(" \t"):
+                    cur.append(tail)
         prev_off = off
+        prev_line = l
         if inreg:
             cur.append("" if l.strip(" \t") == "" else l)
     return regs
@@ -124,8 +136,12 @@ def locate(rin, out_lines):
         if not core:
             res.append((pos, pos))
             continue
+        def at(k_):
+            # the first line of a region may be the rest of the line behind the marker comment's '*/'
+            first = norm[k_] == core[0] or (norm[k_].endswith("*/" + core[0]) and not core[0].lstrip(" \t").startswith(("/*", "//")))
+            return first and norm[k_ + 1:k_ + len(core)] == core[1:]
         k = pos
-        while k + len(core) <= len(norm) and norm[k:k + len(core)] != core:
+        while k + len(core) <= len(norm) and not at(k):
             k += 1
         if k + len(core) > len(norm):
             return None
@@ -143,13 +159,41 @@ def split(text):
     return [l for l, t in obs.split_lines(text)]
 
 
+# where the marker lines and the region stand: at file level, or nested in a construct (head, tail around the rendered lines)
+WRAPS = {
+    "func": ("void w(void)\n{\n", "}\n"),
+    "enum": ("enum E\n{\n    E1,\n", "    E9\n};\n"),
+    "init": ("int t[] =\n{\n    1,\n", "    9\n};\n"),
+    "struct": ("struct S\n{\n    int m1;\n", "    int m9;\n};\n"),
+    "args": ("void w(void)\n{\n    f(1,\n", "      9);\n}\n"),
+    "ifbody": ("void w(int a)\n{\n    if (a)\n", "    a++;\n}\n"),
+    "switch": ("void w(int a)\n{\n    switch (a)\n    {\n    case 1:\n", "        break;\n    }\n}\n"),
+}
+
+
+def wrap_name(wrap, lang):
+    if lang == "PAWN" or not wrap:
+        return ""
+    if wrap is True:
+        return "func"
+    if lang in ("JAVA", "CS") and wrap in ("init", "struct", "enum"):
+        return "func"
+    return wrap
+
+
+def wrap_text(text, wrap):
+    if not wrap:
+        return text
+    head, tail = WRAPS[wrap]
+    return head + text + ("" if text.endswith("\n") else "\n") + tail
+
+
 def _job(a):
     unc, tmp, i, kinds, cfgtext, style, final_nl, seed, wrap, lang = a
     rng = random.Random(seed)
-    wrap = wrap and lang != "PAWN"
+    wrap = wrap_name(wrap, lang)
     text, ls = render(kinds, rng, style, final_nl, lang)
-    if wrap:
-        text = "void w(void)\n{\n" + text + ("" if text.endswith("\n") else "\n") + "}\n"
+    text = wrap_text(text, wrap)
     src = os.path.join(tmp, "r%d%s" % (i, LEXT[lang]))
     cfg = os.path.join(tmp, "r%d.cfg" % i)
     obs.write(src, text.encode("utf-8"))
@@ -167,6 +211,13 @@ def _job(a):
             if loc is not None:
                 norm_out = ["" if l.strip(" \t") == "" else l for l in split(out)]
                 rout = [norm_out[a_:b_] if r_ and any(x != "" for x in r_) else list(r_) for r_, (a_, b_) in zip(rin, loc)]
+                for r_, ro in zip(rin, rout):
+                    # a first line found as the rest of a marker line: the rest is the region's line
+                    core0 = next((x for x in r_ if x != ""), None)
+                    for q, x in enumerate(ro):
+                        if core0 is not None and x != core0 and x.endswith("*/" + core0):
+                            ro[q] = core0
+                            break
                 reshaped = loc
                 ev["reshaped"] = True
         ev["nregs_out"] = len(rout)
@@ -191,8 +242,7 @@ def _job(a):
         for l, k in zip(ls2, kinds2):
             ls2b.append(l if k == "raw" else next(it))
         text2 = "\n".join(ls2b) + ("\n" if final_nl else "")
-        if wrap:
-            text2 = "void w(void)\n{\n" + text2 + ("" if text2.endswith("\n") else "\n") + "}\n"
+        text2 = wrap_text(text2, wrap)
         src2 = os.path.join(tmp, "r%db%s" % (i, LEXT[lang]))
         obs.write(src2, text2.encode("utf-8"))
         rc2, so2, se2 = sh([unc, "-c", cfg, "-q", "-l", lang, "-f", src2], cwd=tmp, timeout=20)
@@ -233,7 +283,7 @@ def run(ctx):
     gen = [e["lines"] for e in rg.emitted if any(e["inreg"])]
     ctx.cov["files_from_tlc"] = len(gen)
     # longer seeded sequences following the same machine
-    kinds_on = ["code", "code", "off", "pasm", "asm", "offon", "blank", "ws"]
+    kinds_on = ["code", "code", "off", "pasm", "asm", "offon", "blank", "ws", "offtail"]
     kinds_off = ["raw", "raw", "raw", "blank", "ws", "rawon", "on", "on"]
     extra = []
     for _ in range(150 if quick else 2000):
@@ -241,15 +291,15 @@ def run(ctx):
         for i in range(ctx.rng.randint(5, 12)):
             if not off:
                 k = ctx.rng.choice(kinds_on)
-                if k in ("off", "pasm", "asm"):
-                    off, how = True, k
+                if k in ("off", "pasm", "asm", "offtail"):
+                    off, how = True, ("off" if k == "offtail" else k)
             else:
                 k = ctx.rng.choice(kinds_off)
                 if k == "on":
                     k = {"off": "on", "pasm": "pend", "asm": "endasm"}[how]
                     off = False
             seq.append(k)
-        if any(k in ("raw", "rawon") for k in seq):
+        if any(k in ("raw", "rawon", "offtail") for k in seq):
             extra.append(seq)
     tmp = ctx.work.sub("c07")
     cfgs = [""] + [cfggen.random_any_config(ctx.rng, unc) for _ in range(11 if quick else 60)]
@@ -268,7 +318,8 @@ def run(ctx):
                 cfgt = cfgt + "mod_pawn_semicolon=true\n"
             if lang in ("JAVA",) and any(k in ("pasm", "pend", "asm", "endasm") for k in kinds):
                 lang = "C"
-            jobs.append((unc, tmp, len(jobs), kinds, cfgt, ctx.rng.randint(0, 3), ctx.rng.random() < 0.75, ctx.rng.randrange(1 << 30), ctx.rng.random() < 0.3, lang))
+            jobs.append((unc, tmp, len(jobs), kinds, cfgt, ctx.rng.randint(0, 3), ctx.rng.random() < 0.75, ctx.rng.randrange(1 << 30),
+                         ctx.rng.choice(["", "", "", "func", "func", "enum", "init", "struct", "args", "ifbody", "switch"]), lang))
     res = pmap_proc(_job, jobs, nproc=14)
     evs = [e for r_, meta in res for e in r_]
     metas = {}
@@ -314,7 +365,10 @@ def run(ctx):
                         return a_ == b_
                     if bad_regs and all(edge_blank_only(rg_) for rg_ in bad_regs):
                         sig = "RegionVerbatim|blank-lines-at-region-edge"
-                ctx.violation(sig, "%s violated for kinds %s: %s" % (b, meta[0], json.dumps(e.get("regs", e.get("ids")))[:600]),
+                if meta[5] == "ifbody" and any(k in ("pend", "endasm") for k in meta[0]) and b in ("RegionOpaque", "RegionVerbatim", "RegionLost"):
+                    # the virtual brace of the unbraced body is opened BEHIND the region: the closing directive is not the first chunk of its line
+                    sig = "%s|unbraced-body|closed-by-directive" % b
+                ctx.violation(sig, "%s violated for kinds %s (%s, %s): %s" % (b, meta[0], meta[5] or "file level", meta[6], json.dumps(e.get("regs", e.get("ids")))[:600]),
                               {"kind": "c07", "kinds": meta[0], "cfg_text": meta[1], "style": meta[2], "final_nl": meta[3], "seed": meta[4], "wrap": meta[5], "lang": meta[6]})
             for dn in rep["drift"]:
                 ctx.drift.append({"module": "Region", "kind": dn, "id": rep["id"], "kinds": meta[0]})
